@@ -2,16 +2,21 @@ import BycycleModel.ObjPipeline
 import Proofs.ObjMachine
 import Proofs.GroupMachine
 import Proofs.Pipeline
+import Proofs.PipelineAmp
 /-! Composition lemmas: object / group histories over the modelled pipeline. -/
 namespace Bycycle.Obj
 variable {S T : Type}
 
-theorem fit_is_pipeline (rc : PipeOut → KV → Except Err PipeOut) (o : Obj Recording PipeOut) (ops : List (Op Recording PipeOut)) (r : Recording)
+theorem fit_is_pipeline (rc : Table → KV → Except Err Table) (o : Obj Recording Table) (ops : List (Op Recording Table)) (r : Recording)
     (hdone : (step (pipelineApi rc) (run (pipelineApi rc) o ops) (.fit r)).2 = .done) :
     let cur := ops.foldl editSettings o.st
     ∃ t, (step (pipelineApi rc) (run (pipelineApi rc) o ops) (.fit r)).1.df = some t ∧
-      cur.cycles = true ∧
-      pipelineCycles (centreOf cur) r.x (r.pad cur.fek) (r.b cur.fek (centreOf cur)) r.amp (r.bd cur.fek) (cycThreshOf cur.thresholds) = .ok t ∧
+      ((cur.cycles = true ∧ ∃ oc, t = .cycles oc ∧
+          pipelineCycles (centreOf cur) r.x (r.pad cur.fek) (r.b cur.fek (centreOf cur)) r.amp (r.bd cur.fek) (cycThreshOf cur.thresholds) = .ok oc) ∨
+       (cur.cycles = false ∧ ∃ oa, t = .amp oa ∧
+          pipelineAmp (centreOf cur) r.x (r.pad cur.fek) (r.b cur.fek (centreOf cur)) r.amp (r.bd cur.fek) (cur.burstKwargs.lookup "min_n_cycles")
+            (cur.thresholds.lookup "min_n_cycles") (cur.burstKwargs.lookup "min_burst_duration") (r.detMask cur.burstKwargs)
+            (lookupD cur.thresholds "burst_fraction_threshold" Slots.ampDefaultThreshold) = .ok oa)) ∧
       ((r.b cur.fek (centreOf cur)).length = r.x.length + 2 * r.pad cur.fek → wellFormed t.samples r.x.length (r.bd cur.fek)) := by
   intro cur
   have h := fit_after_history (pipelineApi rc) o ops r
@@ -24,8 +29,24 @@ theorem fit_is_pipeline (rc : PipeOut → KV → Except Err PipeOut) (o : Obj Re
   unfold pipelineCf at hcf'
   by_cases hc : cur.cycles = true
   · simp only [hc, if_true] at hcf'
-    exact ⟨hc, hcf', fun hlen => pipeline_wellFormed _ _ _ _ _ _ _ t hlen hcf'⟩
-  · simp [hc] at hcf'
+    cases hp : pipelineCycles (centreOf cur) r.x (r.pad cur.fek) (r.b cur.fek (centreOf cur)) r.amp (r.bd cur.fek) (cycThreshOf cur.thresholds) with
+    | error e => rw [hp] at hcf'; simp [Except.map] at hcf'
+    | ok oc =>
+      rw [hp] at hcf'
+      simp only [Except.map, Except.ok.injEq] at hcf'
+      subst hcf'
+      exact ⟨Or.inl ⟨hc, oc, rfl, rfl⟩, fun hlen => pipeline_wellFormed _ _ _ _ _ _ _ oc hlen hp⟩
+  · have hc' : cur.cycles = false := by simpa using hc
+    simp only [hc', Bool.false_eq_true, if_false] at hcf'
+    cases hp : pipelineAmp (centreOf cur) r.x (r.pad cur.fek) (r.b cur.fek (centreOf cur)) r.amp (r.bd cur.fek) (cur.burstKwargs.lookup "min_n_cycles")
+            (cur.thresholds.lookup "min_n_cycles") (cur.burstKwargs.lookup "min_burst_duration") (r.detMask cur.burstKwargs)
+            (lookupD cur.thresholds "burst_fraction_threshold" Slots.ampDefaultThreshold) with
+    | error e => rw [hp] at hcf'; simp [Except.map] at hcf'
+    | ok oa =>
+      rw [hp] at hcf'
+      simp only [Except.map, Except.ok.injEq] at hcf'
+      subst hcf'
+      exact ⟨Or.inr ⟨hc', oa, rfl, rfl⟩, fun hlen => (pipelineAmp_spec _ _ _ _ _ _ _ _ _ _ _ oa hlen hp).1⟩
 
 theorem mapExcept_ok {α β : Type} (f : α → Except Err β) (xs : List α) (ts : List β) (h : mapExcept f xs = .ok ts) :
     ts.length = xs.length ∧ ∀ (i : Nat) (x : α), xs[i]? = some x → ∃ t, ts[i]? = some t ∧ f x = .ok t := by
